@@ -107,6 +107,10 @@ seq_t dtw_distance(seq_t *s1, idx_t l1,
     if (settings->use_pruning || settings->only_ub) {
         max_dist = ub_euclidean(s1, l1, s2, l2);
         if (settings->only_ub) {
+            if (settings->max_length_diff != 0 && (l1 > l2 ? l1 - l2 : l2 - l1) > settings->max_length_diff) {
+                // The distance is infinite, and so is its upper bound
+                return INFINITY;
+            }
             return max_dist;
         }
         // sqrt followed by pow can round below the exact sum, keep the bound an upper bound
@@ -351,6 +355,10 @@ seq_t dtw_distance_ndim(seq_t *s1, idx_t l1,
     if (settings->use_pruning || settings->only_ub) {
         max_dist = ub_euclidean_ndim(s1, l1, s2, l2, ndim);
         if (settings->only_ub) {
+            if (settings->max_length_diff != 0 && (l1 > l2 ? l1 - l2 : l2 - l1) > settings->max_length_diff) {
+                // The distance is infinite, and so is its upper bound
+                return INFINITY;
+            }
             return max_dist;
         }
         // sqrt followed by pow can round below the exact sum, keep the bound an upper bound
@@ -598,6 +606,10 @@ seq_t dtw_distance_euclidean(seq_t *s1, idx_t l1,
     if (settings->use_pruning || settings->only_ub) {
         max_dist = ub_euclidean_euclidean(s1, l1, s2, l2);
         if (settings->only_ub) {
+            if (settings->max_length_diff != 0 && (l1 > l2 ? l1 - l2 : l2 - l1) > settings->max_length_diff) {
+                // The distance is infinite, and so is its upper bound
+                return INFINITY;
+            }
             return max_dist;
         }
     } else if (max_dist == 0) {
@@ -832,6 +844,10 @@ seq_t dtw_distance_ndim_euclidean(seq_t *s1, idx_t l1,
     if (settings->use_pruning || settings->only_ub) {
         max_dist = ub_euclidean_ndim_euclidean(s1, l1, s2, l2, ndim);
         if (settings->only_ub) {
+            if (settings->max_length_diff != 0 && (l1 > l2 ? l1 - l2 : l2 - l1) > settings->max_length_diff) {
+                // The distance is infinite, and so is its upper bound
+                return INFINITY;
+            }
             return max_dist;
         }
     } else if (max_dist == 0) {
